@@ -193,6 +193,12 @@ Definition double_check_seen (sched : list nat) (tr : list (list lbl)) : bool :=
 Definition keyerror_seen (log : list lbl) : bool :=
   existsb (fun x => match x with LMark _ _ (Err KeyError) => true | _ => false end) log.
 
+(* the thread driver logs [LOther 2] when a task asked for self._disconnect_lock without
+   blocking while another task held it and went on without the lock (the model has no such
+   access: a task that wants the lock waits) *)
+Definition gave_up_seen (log : list lbl) : bool :=
+  existsb (fun x => match x with LOther 2 => true | _ => false end) log.
+
 Definition case_bits (k : ccase) : nat :=
   match k with
   | Case g su R causes sched tr final alldone =>
@@ -203,7 +209,8 @@ Definition case_bits (k : ccase) : nat :=
    observation violates the property, the higher bits say how: 4 handler more than once,
    8 handler never ran, 16 exception escaped, 32 trace left, 64 bystander affected, 128 bad
    reason; with bit 2 also 256 = the double-check window was open in this run and
-   512 = pre_disconnect raised KeyError *)
+   512 = pre_disconnect raised KeyError, 1024 = a task went on without the lock after a
+   non-blocking acquire found it busy *)
 Definition c20_eval (k : ccase) : nat :=
   (if agree k then 0 else 1) +
   match case_bits k with
@@ -211,7 +218,8 @@ Definition c20_eval (k : ccase) : nat :=
   | b => 2 + b +
          match k with Case _ _ _ _ sched tr _ _ =>
            (if double_check_seen sched tr then 256 else 0) +
-           (if keyerror_seen (List.concat tr) then 512 else 0) end
+           (if keyerror_seen (List.concat tr) then 512 else 0) +
+           (if gave_up_seen (List.concat tr) then 1024 else 0) end
   end.
 
 Definition c20_explain (k : ccase) :=
